@@ -576,19 +576,19 @@ fn slices(mode: Mode, thorough: bool) -> Vec<Slice> {
         // chunks far larger than the exhaustive slices use (buffering thresholds such as 4 KiB / 64 KiB)
         v.push(Slice {
             name: "large-chunks/video/multi-chunk-messages",
-            types: vec![9], msids: vec![1], tss: vec![0, 40], lens: if thorough && mode != Mode::C07 || c07_extra { vec![0, 4_097, 12_000, 150_000] } else { vec![0, 12_000] },
-            forces: vec![false], drops: vec![false], setchunks: if thorough && mode != Mode::C07 || c07_extra { vec![4_097, 5_000, 70_000] } else { vec![4_097, 5_000] }, init_chunk: None,
+            types: vec![9], msids: vec![1], tss: vec![0, 40], lens: if thorough && mode != Mode::C07 || c07_extra { vec![0, 4_097, 12_000, 150_000] } else { vec![0, 12_000, 150_000] },
+            forces: vec![false], drops: vec![false], setchunks: if thorough && mode != Mode::C07 || c07_extra { vec![4_097, 5_000, 70_000] } else { vec![4_097, 70_000] }, init_chunk: None,
         });
     }
     if c07_extra {
         v.push(Slice {
-            name: "five-chunk-streams/one-type-each/chunk-size-2",
-            types: vec![4, 18, 9, 8, 20], msids: vec![1], tss: vec![0, 1, 0xFF_FFFF], lens: vec![0, 3],
-            forces: both.clone(), drops: both.clone(), setchunks: vec![], init_chunk: Some(2),
+            name: "four-chunk-streams/one-type-each/chunk-size-2",
+            types: vec![4, 18, 9, 8], msids: vec![1], tss: vec![0, 1], lens: vec![3],
+            forces: vec![false], drops: both.clone(), setchunks: vec![], init_chunk: Some(2),
         });
         v.push(Slice {
-            name: "one-chunk-stream/six-protocol-control-types/chunk-size-3",
-            types: vec![1, 2, 3, 4, 5, 6], msids: vec![0, 1], tss: vec![0, 1, 2], lens: vec![4, 5],
+            name: "one-chunk-stream/five-protocol-control-types/chunk-size-3",
+            types: vec![2, 3, 4, 5, 6], msids: vec![0, 1], tss: vec![0, 1, 2], lens: vec![4, 5],
             forces: both.clone(), drops: vec![false], setchunks: vec![], init_chunk: Some(3),
         });
         v.push(Slice {
@@ -632,6 +632,12 @@ pub fn run(run: &Run, mode: Mode) {
     let mut all_fix = true;
     let agg = Counters::new(&NAMES);
     for sl in slices(mode, thorough) {
+        // debugging aid: VCHECK_SLICE=<substring> restricts the run to matching slices (never set by the registered commands)
+        if let Ok(f) = std::env::var("VCHECK_SLICE") {
+            if !sl.name.contains(&f) {
+                continue;
+            }
+        }
         let g = CodecGraph { mode, slice: sl.clone(), counters: Counters::new(&NAMES) };
         let init = match init_state(mode, &sl, &g) {
             Ok(s) => s,
